@@ -90,7 +90,7 @@ def make_ident(rng, base, classes=None):
     raise ValueError(cls)
 
 
-ROLES = ["S", "T", "A", "B", "C", "CN", "UQ", "CK", "IX", "FK", "RT", "RC", "RS", "SQ", "TY", "DM", "D"]
+ROLES = ["S", "T", "A", "B", "C", "CN", "UQ", "CK", "IX", "FK", "RT", "RC", "RS", "SQ", "TY", "DM", "D", "IK"]
 
 
 def gen_script(rng, classes=None):
@@ -108,7 +108,7 @@ def gen_script(rng, classes=None):
     ddl = (
         "CREATE TABLE {S}.{T} (\n  {A} int NOT NULL,\n  {B} varchar(10) REFERENCES {RS}.{RT} ({RC}),\n  {C} date,\n  {D} {S}.{TY} NOT NULL,\n"
         "  CONSTRAINT {CN} PRIMARY KEY ({A}, {B}),\n  CONSTRAINT {UQ} UNIQUE ({B}, {C}, {A}, {D}),\n  CONSTRAINT {CK} CHECK ({A} > 0),\n"
-        "  FOREIGN KEY ({C}) REFERENCES {RT} ({RC}) ON DELETE CASCADE\n);\n"
+        "  FOREIGN KEY ({C}) REFERENCES {RT} ({RC}) ON DELETE CASCADE,\n  KEY {IK} ({B})\n);\n"
         "CREATE UNIQUE INDEX {IX} ON {S}.{T} ({A} ASC, {B} DESC);\n"
         "ALTER TABLE {S}.{T} ADD CONSTRAINT {FK} FOREIGN KEY ({A}) REFERENCES {RS}.{RT} ({RC});\n"
         "CREATE SEQUENCE {S}.{SQ} START WITH 5;\n"
@@ -132,8 +132,10 @@ def expected_positions(g):
         (("0", "constraints", "primary_keys", 0, "constraint_name"), g["CN"]), (("0", "constraints", "primary_keys", 0, "columns"), [g["A"], g["B"]]),
         (("0", "constraints", "uniques", 0, "constraint_name"), g["UQ"]), (("0", "constraints", "uniques", 0, "columns"), [g["B"], g["C"], g["A"], g["D"]]),
         (("0", "constraints", "checks", 0, "constraint_name"), g["CK"]), (("0", "constraints", "checks", 0, "statement"), g["A"] + " > 0"),
-        (("0", "index", 0, "index_name"), g["IX"]), (("0", "index", 0, "columns"), [g["A"], g["B"]]),
-        (("0", "index", 0, "detailed_columns", "*name"), [g["A"], g["B"]]),
+        (("0", "index", 0, "index_name"), g["IK"]), (("0", "index", 0, "columns"), [g["B"]]),          # the inline (mysql style) KEY name (col)
+        (("0", "index", 0, "detailed_columns", "*name"), [g["B"]]),
+        (("0", "index", 1, "index_name"), g["IX"]), (("0", "index", 1, "columns"), [g["A"], g["B"]]),
+        (("0", "index", 1, "detailed_columns", "*name"), [g["A"], g["B"]]),
         (("0", "alter", "columns", 0, "name"), g["A"]), (("0", "alter", "columns", 0, "constraint_name"), g["FK"]),
         (("0", "alter", "columns", 0, "references", "table"), g["RT"]), (("0", "alter", "columns", 0, "references", "schema"), g["RS"]),
         (("0", "alter", "columns", 0, "references", "column"), g["RC"]),
